@@ -16,6 +16,11 @@ Partial (support search, not decided by proof): every critical point / spinodal 
 records, literal configurations, binary mixtures, random Peng-Robinson triples) is re-checked through independent
 public-API calls: q = -dp_dv V/(rho T), c = d2p_dv2 V^2/(rho T) - 3q, p > 0, eigenvalue / third derivative for
 mixtures, T or p reproduced, spinodals bracket rho_c and lie inside the binodal, PR (Tc, pc) to 1e-4.
+Round 3: PhaseDiagram::spinodal from 0.5 Tc for every record of gross2001 / lafitte2013 (thorough: five PC-SAFT files) —
+each stored pair re-checked and compared with State::spinodal at the same temperature; Peng-Robinson mixtures with random
+non-zero k_ij: the critical point of every one-component subset (eos.subset(&[i]), State::critical_point_pure) is the
+(Tc, pc) of record i (search + interval goals against pr_coded_critical_point's closed form); critical_point_pure of
+PC-SAFT mixtures with k_ij vs the separately built pure models.
 """
 import os
 import re
@@ -197,7 +202,7 @@ def run(ctx):
                            "rule": "converged at iteration k <=> k is the first iteration whose logged residual norm is < tol (tol = default 1e-8, 1e-6, 1e-10)"},
         "support_search": {"level": "exploration", "stats": stats, "failures": len(fails), "known": len(fails) - len(unknown),
                            "ranges": "initial temperatures 0.5..1.6 (grid step 0.1) of the true critical temperature + default start; "
-                                     "spinodal temperatures in [0.5,0.99] Tc; Peng-Robinson Tc in [100,900] K, pc in [5,200] bar, omega in [-0.1,1]"},
+                                     "spinodal temperatures in [0.5,0.99] Tc; PhaseDiagram::spinodal from 0.5 Tc (6 / 11 points); Peng-Robinson Tc in [100,900] K, pc in [5,200] bar, omega in [-0.1,1]; Peng-Robinson mixtures n = 2,3 with k_ij in [-0.15,0.15]"},
         "samples": samples + search["samples"][:8],
         "rule": "interval goals: hooked objectives vs model at random (T,rho[,N]) per configuration; "
                 "support search: every returned critical point / spinodal re-checked with dp_dv, d2p_dv2, dmu_dni, pressure",
